@@ -3123,6 +3123,22 @@ idx_t dtw_wps_max(DTWWps* p, seq_t *wps, idx_t *r, idx_t *c, idx_t l1, idx_t l2)
 
 
 /*!
+ Value of cell (r, c) of the compact warping paths matrix, INFINITY if the cell is not stored
+ (outside the window band).
+ */
+static seq_t dtw_wps_value(DTWWps *p, seq_t *wps, idx_t r, idx_t c, idx_t l1, idx_t l2) {
+    idx_t cb = 0, ce = 0;
+    if (r < 1 || c < 1 || r > l1 || c > l2) {
+        return INFINITY;
+    }
+    idx_t base = dtw_wps_loc_columns(p, r, &cb, &ce, l1, l2);
+    if (cb <= c && c < ce) {
+        return wps[base + c - cb];
+    }
+    return INFINITY;
+}
+
+/*!
 Compute best path between two series.
  
  @param wps Array of length `(l1+1)*min(l2+1, abs(l1-l2) + 2*window-1)` with the warping paths.
@@ -3140,6 +3156,36 @@ idx_t dtw_best_path(seq_t *wps, idx_t *i1, idx_t *i2, idx_t l1, idx_t l2,
                     
                     DTWSettings *settings) {
     DTWWps p = dtw_wps_parts(l1, l2, settings);
+    // Cells skipped by the psi-relaxation at the end of the series are marked with -1: a run in
+    // the last column or in the last row that starts in the lower right corner. Comparing values
+    // with them would allow to leave that line diagonally and miss the cell in which the best
+    // path ends; skip them first and trace back from the cell after the run.
+    if (dtw_wps_value(&p, wps, l1, l2, l1, l2) == -1) {
+        idx_t rs = l1;
+        idx_t cs = l2;
+        bool go_up;
+        if (dtw_wps_value(&p, wps, rs - 1, cs, l1, l2) == -1) {
+            go_up = true;
+        } else if (dtw_wps_value(&p, wps, rs, cs - 1, l1, l2) == -1) {
+            go_up = false;
+        } else if (settings->psi_2e == 0) {
+            go_up = true;
+        } else if (settings->psi_1e == 0) {
+            go_up = false;
+        } else {
+            go_up = (dtw_wps_value(&p, wps, rs - 1, cs, l1, l2) <= dtw_wps_value(&p, wps, rs, cs - 1, l1, l2));
+        }
+        while (dtw_wps_value(&p, wps, rs, cs, l1, l2) == -1) {
+            if (go_up) {
+                if (rs <= 1) { break; }
+                rs--;
+            } else {
+                if (cs <= 1) { break; }
+                cs--;
+            }
+        }
+        return dtw_best_path_customstart(wps, i1, i2, l1, l2, rs, cs, settings);
+    }
 
     idx_t i = 0;
     idx_t rip = l1;
